@@ -1,16 +1,7 @@
 (* C09 (i),(ii): the round-robin leader of consensus/src/leader.rs over byte-string keys. *)
 From Coq Require Import List NArith Lia Bool Permutation Sorted ZifyN ZifyBool Arith.
+From HS Require Import Guards LeaderDefs.
 Import ListNotations.
-
-Definition key := list N.   (* the 32 bytes of a public key *)
-
-(* derived Ord on [u8; 32]: lexicographic *)
-Fixpoint kleb (a b : key) : bool :=
-  match a, b with
-  | [], _ => true
-  | _ :: _, [] => false
-  | x :: xs, y :: ys => if N.ltb x y then true else if N.eqb x y then kleb xs ys else false
-  end.
 
 Lemma kleb_total a : forall b, kleb a b = true \/ kleb b a = true.
 Proof.
@@ -29,11 +20,6 @@ Proof.
   destruct (N.ltb_spec x y), (N.ltb_spec y z), (N.ltb_spec x z), (N.eqb_spec x y), (N.eqb_spec y z), (N.eqb_spec x z);
     try lia; try discriminate; auto; subst; eauto.
 Qed.
-
-(* insertion sort stands for `keys.sort()` (any stable or unstable sort gives the same list when keys are distinct) *)
-Fixpoint insert (k : key) (l : list key) : list key :=
-  match l with [] => [k] | x :: r => if kleb k x then k :: l else x :: insert k r end.
-Fixpoint sort (l : list key) : list key := match l with [] => [] | x :: r => insert x (sort r) end.
 
 Definition kle a b := kleb a b = true.
 Lemma insert_perm k l : Permutation (k :: l) (insert k l).
@@ -73,13 +59,10 @@ Proof.
     subst. f_equal. apply IH; auto. eapply Permutation_cons_inv; eauto.
 Qed.
 
-Definition leader (keys : list key) (r : N) : key :=
-  nth (N.to_nat (N.modulo r (N.of_nat (length keys)))) (sort keys) [].
-
 (* (i) the committee (as a set) alone decides: insertion order is irrelevant *)
 Theorem leader_perm ks ks' r : Permutation ks ks' -> leader ks r = leader ks' r.
 Proof.
-  intros P. unfold leader. rewrite (Permutation_length P).
+  intros P. unfold leader, g_leader_index. rewrite (Permutation_length P).
   assert (sort ks = sort ks').
   { apply sorted_perm_eq; try apply sort_sorted.
     eapply perm_trans; [apply Permutation_sym, sort_perm|]. eapply perm_trans; [exact P|apply sort_perm]. }
@@ -131,7 +114,7 @@ Proof.
   assert (Hs : length (sort ks) = n) by (symmetry; apply Permutation_length, sort_perm).
   assert (E : map (fun k => leader ks (r + N.of_nat k)) (seq 0 n) =
               map (fun i => nth i (sort ks) []) (map (fun k => (N.to_nat r + k) mod n)%nat (seq 0 n))).
-  { rewrite map_map. apply map_ext. intros k. unfold leader. fold n. f_equal.
+  { rewrite map_map. apply map_ext. intros k. unfold leader, g_leader_index. fold n. f_equal.
     assert (Hn' : N.of_nat n <> 0%N) by lia.
     pose proof (N.mod_upper_bound (r + N.of_nat k) (N.of_nat n) Hn') as Hu.
     pose proof (N.div_mod (r + N.of_nat k) (N.of_nat n) Hn') as Hd.
